@@ -68,6 +68,7 @@ type State struct {
 	panicVal string            // value of the panic in flight ("" = none)
 	rangeKey, rangeKeySort string // key of the innermost map-range iteration (ghost tagging of abstract calls)
 	rangeOrd int
+	recoverDepth int
 	iterHead *State // state at the head of the current loop iteration (for prev())
 	loopExit map[int]*State // state in which loop N was left through its guard (for atexit())
 }
@@ -201,7 +202,7 @@ func (fx *Fx) ctorArgsOf(term, ctor string) ([]string, bool) {
 
 func (fx *Fx) oblige(st *State, kind, label, goal, info string) {
 	// a conjunction is split into one obligation per conjunct (smaller queries, sharper failure reports)
-	if parts, ok := ctorArgs(goal, "and"); ok && len(parts) > 1 && (kind == "post" || kind == "inv-init" || kind == "inv-step" || kind == "pre") {
+	if parts, ok := ctorArgs(goal, "and"); ok && len(parts) > 1 && (kind == "post" || kind == "inv-init" || kind == "inv-step" || kind == "pre" || kind == "step") {
 		parts = flattenAnd(parts)
 		for i, p := range parts {
 			fx.obligeOne(st, kind, fmt.Sprintf("%s.%d", label, i+1), p, info)
@@ -209,7 +210,7 @@ func (fx *Fx) oblige(st *State, kind, label, goal, info string) {
 		return
 	}
 	// A ==> (c1 && c2 ...) is split as well
-	if args, ok := ctorArgs(goal, "=>"); ok && len(args) == 2 && (kind == "post" || kind == "inv-init" || kind == "inv-step" || kind == "pre") {
+	if args, ok := ctorArgs(goal, "=>"); ok && len(args) == 2 && (kind == "post" || kind == "inv-init" || kind == "inv-step" || kind == "pre" || kind == "step") {
 		if parts, ok := ctorArgs(args[1], "and"); ok && len(parts) > 1 {
 			parts = flattenAnd(parts)
 			for i, p := range parts {
@@ -298,7 +299,8 @@ func (fx *Fx) load(st *State, l *Loc) Val {
 // loaded adds the facts known about any value read from memory.
 func (fx *Fx) loaded(st *State, v Val) Val {
 	if fx.inQuant == 0 && strings.HasPrefix(v.S, "Seq_") {
-		st.assume(app("<=", "0", fx.seqLen(v)))
+		st.assume(and(app("<=", "0", fx.seqLen(v)), app("<=", fx.seqLen(v), app("cap_"+v.S, v.X))))
+		fx.older(st, app("bk_"+v.S, v.X)) // a backing array read from memory was allocated before now
 	}
 	if fx.inQuant == 0 && v.S == SInt && v.T != nil {
 		if b, ok := v.T.Underlying().(*types.Basic); ok && b.Info()&types.IsInteger != 0 && !isUntyped(v.T) {
@@ -440,7 +442,7 @@ func (fx *Fx) seqLen(b Val) string {
 	case b.S == SStr:
 		return app("slen", b.X)
 	case strings.HasPrefix(b.S, "Seq_"):
-		if parts, ok := fx.ctorArgsOf(b.X, "mk_"+b.S); ok && len(parts) == 2 {
+		if parts, ok := fx.ctorArgsOf(b.X, "mk_"+b.S); ok && len(parts) == 4 {
 			return parts[1]
 		}
 		return app("len_"+b.S, b.X)
@@ -475,10 +477,10 @@ func (fx *Fx) store(st *State, l *Loc, v Val) {
 		case strings.HasPrefix(b.S, "Seq_"):
 			arr := app("arr_"+b.S, b.X)
 			ln := fx.seqLen(b)
-			if parts, ok := fx.ctorArgsOf(b.X, "mk_"+b.S); ok && len(parts) == 2 {
+			if parts, ok := fx.ctorArgsOf(b.X, "mk_"+b.S); ok && len(parts) == 4 {
 				arr = parts[0]
 			}
-			fx.store(st, l.base, Val{T: b.T, S: b.S, X: fx.share(app("mk_"+b.S, app("store", arr, l.idx, v.X), ln), b.S)})
+			fx.store(st, l.base, Val{T: b.T, S: b.S, X: fx.share(app("mk_"+b.S, app("store", arr, l.idx, v.X), ln, app("cap_"+b.S, b.X), app("bk_"+b.S, b.X)), b.S)})
 		case strings.HasPrefix(b.S, "(Array Int "):
 			fx.store(st, l.base, Val{T: b.T, S: b.S, X: app("store", b.X, l.idx, v.X)})
 		default:
@@ -583,7 +585,7 @@ func (fx *Fx) typeFacts(st *State, v Val, depth int) {
 		}
 	case *types.Slice:
 		if v.S != SStr {
-			st.assume(app("<=", "0", fx.seqLen(v)))
+			st.assume(and(app("<=", "0", fx.seqLen(v)), app("<=", fx.seqLen(v), app("cap_"+v.S, v.X))))
 		}
 	case *types.Struct:
 		if n, ok := v.T.(*types.Named); ok && isTimeTime(n) {
